@@ -237,6 +237,11 @@ func PathOfIn(v ssa.Value, call *ssa.CallCommon) string {
 			st.bind[p] = PathOf(call.Args[i])
 		}
 	}
+	if fn = InvokeDefault(call); fn != nil && len(fn.Params) == len(call.Args)+1 {
+		for i, p := range fn.Params[1:] {
+			st.bind[p] = PathOf(call.Args[i])
+		}
+	}
 	return st.path(v)
 }
 
@@ -245,9 +250,63 @@ var transparent = map[string]bool{
 	"strings.Clone": true,
 }
 
+// IdentityHelper: a one-argument helper of the module whose result equals its argument on every way
+// out: it returns the parameter, a transparent copy of it (strings.Clone), or a value it has just
+// compared equal to the parameter (an interning hook: `if r := (*f)(s); r == s { return r };
+// return strings.Clone(s)`). Whatever it calls on the way cannot change what is handed back.
+var identMemo = map[*ssa.Function]bool{}
+
+func IdentityHelper(fn *ssa.Function) bool {
+	if fn == nil || len(fn.Blocks) == 0 || len(fn.Params) != 1 || fn.Signature.Results().Len() != 1 || fn.Signature.Recv() != nil || !InModuleFn(fn) {
+		return false
+	}
+	if v, ok := identMemo[fn]; ok {
+		return v
+	}
+	identMemo[fn] = false
+	p := fn.Params[0]
+	if !types.Identical(p.Type(), fn.Signature.Results().At(0).Type()) {
+		return false
+	}
+	if b, isB := p.Type().Underlying().(*types.Basic); !isB || b.Info()&(types.IsString|types.IsInteger) == 0 {
+		return false
+	}
+	n := 0
+	for _, b := range fn.Blocks {
+		ret, isRet := b.Instrs[len(b.Instrs)-1].(*ssa.Return)
+		if !isRet {
+			continue
+		}
+		n++
+		v := ret.Results[0]
+		if v == ssa.Value(p) {
+			continue
+		}
+		if cl, isC := v.(*ssa.Call); isC && len(cl.Call.Args) == 1 && cl.Call.Args[0] == ssa.Value(p) && transparent[CalleeName(&cl.Call)] {
+			continue
+		}
+		eq := false
+		for _, g := range Guards(fn, b) {
+			g = NormCond(g)
+			if bo, isBO := g.V.(*ssa.BinOp); isBO && (bo.Op == token.EQL) == g.True && (bo.Op == token.EQL || bo.Op == token.NEQ) &&
+				((bo.X == v && bo.Y == ssa.Value(p)) || (bo.Y == v && bo.X == ssa.Value(p))) {
+				eq = true
+			}
+		}
+		if !eq {
+			return false
+		}
+	}
+	identMemo[fn] = n > 0
+	return n > 0
+}
+
 // CalleeName gives a stable name of the static callee or invoked method.
 func CalleeName(c *ssa.CallCommon) string {
 	if c.IsInvoke() {
+		if f := InvokeConcrete(c); f != nil {
+			return FuncFullName(f)
+		}
 		recv := c.Value.Type()
 		return "invoke:" + types.TypeString(recv, nil) + "." + c.Method.Name()
 	}
@@ -260,6 +319,10 @@ func CalleeName(c *ssa.CallCommon) string {
 		if fn, ok := f.Fn.(*ssa.Function); ok {
 			return FuncFullName(fn)
 		}
+	}
+	// a call through an injectable field or a function parameter with one default: the default
+	if f := StaticCallee(c); f != nil {
+		return FuncFullName(f)
 	}
 	return "dynamic"
 }
@@ -342,9 +405,279 @@ func StaticCallee(c *ssa.CallCommon) *ssa.Function {
 	case *ssa.MakeClosure:
 		fn, _ := f.Fn.(*ssa.Function)
 		return fn
+	case *ssa.UnOp:
+		// a call through an injectable field (`c.keyFn(event)`): with the default wiring it is the
+		// one function the module itself ever puts there
+		if f.Op == token.MUL {
+			if fa, ok := f.X.(*ssa.FieldAddr); ok {
+				return DefaultFieldFuncHook(fa.X.Type(), fa.Field)
+			}
+		}
+	case *ssa.Phi:
+		// `if src == nil { src = rand.Uint32 }`: the default, the other edges being what was handed in
+		var def *ssa.Function
+		for _, e := range f.Edges {
+			for {
+				ct, isCT := e.(*ssa.ChangeType)
+				if !isCT {
+					break
+				}
+				e = ct.X
+			}
+			switch y := e.(type) {
+			case *ssa.Function:
+				if def != nil && def != y {
+					return nil
+				}
+				def = y
+			case *ssa.Parameter:
+				if d := FuncParamDefaultHook(y); d != nil {
+					if def != nil && def != d {
+						return nil
+					}
+					def = d
+				}
+			case *ssa.Const:
+			default:
+				return nil
+			}
+		}
+		return def
+	case *ssa.Parameter:
+		// a function handed down as an argument (`setOrLoadXXHashSeed(ctx, db, opt.SeedSource)` …
+		// `src()`): what every call site passes, if that is one function
+		return FuncParamDefaultHook(f)
 	}
 	return nil
 }
+
+// SoleImplHook: the method `name` of the one type of the module that implements the module's
+// interface t (nil when there are none or several). Installed by core.
+var SoleImplHook = func(t types.Type, name string) *ssa.Function { return nil }
+
+// InvokeDefault: the method an interface call runs under the module's default wiring — the
+// interface is the module's own and exactly one of its types implements it.
+func InvokeDefault(c *ssa.CallCommon) *ssa.Function {
+	if !c.IsInvoke() {
+		return nil
+	}
+	return SoleImplHook(c.Value.Type(), c.Method.Name())
+}
+
+// MethodOfHook: the method `name` of the concrete type t. Installed by core.
+var MethodOfHook = func(t types.Type, pkg *types.Package, name string) *ssa.Function { return nil }
+
+// ConcreteType: the one dynamic type an interface value can have — it was made from a value of that
+// type here, or by the (statically known, or default-wired) function it was returned by, on every
+// way out. nil when that cannot be told.
+func ConcreteType(v ssa.Value) types.Type { return concreteType(v, 0) }
+
+func concreteType(v ssa.Value, depth int) types.Type {
+	if depth > 4 || v == nil {
+		return nil
+	}
+	if _, isI := v.Type().Underlying().(*types.Interface); !isI {
+		return v.Type()
+	}
+	switch x := v.(type) {
+	case *ssa.MakeInterface:
+		return x.X.Type()
+	case *ssa.ChangeInterface:
+		return concreteType(x.X, depth+1)
+	case *ssa.Phi:
+		var t types.Type
+		for _, e := range x.Edges {
+			if k, isK := e.(*ssa.Const); isK && k.IsNil() {
+				continue
+			}
+			et := concreteType(e, depth+1)
+			if et == nil || (t != nil && !types.Identical(t, et)) {
+				return nil
+			}
+			t = et
+		}
+		return t
+	case *ssa.Extract:
+		if call, ok := x.Tuple.(*ssa.Call); ok {
+			return resultType(call, x.Index, depth)
+		}
+	case *ssa.Call:
+		return resultType(x, 0, depth)
+	}
+	return nil
+}
+
+func resultType(call *ssa.Call, idx, depth int) types.Type {
+	f := StaticCallee(&call.Call)
+	if f == nil || len(f.Blocks) == 0 || !InModuleFn(f) {
+		return nil
+	}
+	var t types.Type
+	n := 0
+	for _, b := range f.Blocks {
+		ret, ok := b.Instrs[len(b.Instrs)-1].(*ssa.Return)
+		if !ok || idx >= len(ret.Results) {
+			continue
+		}
+		n++
+		if k, isK := ret.Results[idx].(*ssa.Const); isK && k.IsNil() {
+			continue
+		}
+		et := concreteType(ret.Results[idx], depth+1)
+		if et == nil || (t != nil && !types.Identical(t, et)) {
+			return nil
+		}
+		t = et
+	}
+	if n == 0 {
+		return nil
+	}
+	return t
+}
+
+// InvokeConcrete: the method an interface call runs when the receiver's dynamic type is known.
+func InvokeConcrete(c *ssa.CallCommon) *ssa.Function {
+	if !c.IsInvoke() {
+		return nil
+	}
+	t := ConcreteType(c.Value)
+	if t == nil {
+		return nil
+	}
+	return MethodOfHook(t, c.Method.Pkg(), c.Method.Name())
+}
+
+// FuncParamDefaultHook: the function-typed parameter of an unexported module function receives the
+// same function at every call site (a named function, or the default of an injectable field). nil
+// otherwise. Installed by core.
+var FuncParamDefaultHook = func(p *ssa.Parameter) *ssa.Function { return nil }
+
+// Follow: a function that only forwards — one call of a module function (statically known, or the
+// default of an injectable field) with its own parameters, constants or nil as arguments, whose
+// results it returns as they are (`func (ev *Event) Verify() (bool, error) { return ev.VerifyWith(nil)
+// }`, `func NewEventCache(n int) *EventCache { return NewEventCacheWithOptions(n) }`, `func (c
+// *EventCache) getEventKey(ev *Event) string { return c.keyFn(ev) }`) stands for the function it
+// forwards to: the rules read that one. Followed transitively (three levels).
+func Follow(fn *ssa.Function) *ssa.Function {
+	for i := 0; i < 3 && fn != nil; i++ {
+		if t, ok := followMemo[fn]; ok {
+			if t == nil {
+				return fn
+			}
+			fn = t
+			continue
+		}
+		t := forwardTarget(fn)
+		followMemo[fn] = t
+		if t == nil {
+			return fn
+		}
+		fn = t
+	}
+	return fn
+}
+
+var followMemo = map[*ssa.Function]*ssa.Function{}
+
+// ResetFollow forgets what Follow learnt (a new program was loaded).
+func ResetFollow() { followMemo = map[*ssa.Function]*ssa.Function{} }
+
+func forwardTarget(fn *ssa.Function) *ssa.Function {
+	if fn == nil || len(fn.Blocks) == 0 || len(fn.Blocks) > 4 || !InModuleFn(fn) || fn.Parent() != nil {
+		return nil
+	}
+	// arguments: own parameters, constants, nil
+	isParam := func(v ssa.Value) bool {
+		for {
+			switch y := v.(type) {
+			case *ssa.ChangeType:
+				v = y.X
+				continue
+			case *ssa.MakeInterface:
+				v = y.X
+				continue
+			case *ssa.ChangeInterface:
+				v = y.X
+				continue
+			}
+			break
+		}
+		switch y := v.(type) {
+		case *ssa.Parameter:
+			return y.Parent() == fn
+		case *ssa.Const:
+			return true
+		}
+		return false
+	}
+	var target *ssa.Function
+	nRet := 0
+	for _, b := range fn.Blocks {
+		var call *ssa.Call
+		for _, in := range b.Instrs {
+			switch x := in.(type) {
+			case *ssa.Call:
+				if _, isB := x.Call.Value.(*ssa.Builtin); isB || call != nil {
+					return nil
+				}
+				call = x
+			case *ssa.Return:
+				nRet++
+				if call == nil {
+					return nil
+				}
+				// results handed on as they are
+				if len(x.Results) == 1 {
+					if x.Results[0] != ssa.Value(call) {
+						return nil
+					}
+				} else {
+					for i, r := range x.Results {
+						ex, ok := r.(*ssa.Extract)
+						if !ok || ex.Tuple != ssa.Value(call) || ex.Index != i {
+							return nil
+						}
+					}
+				}
+			case *ssa.BinOp:
+				// only "is the injectable field set?" (`if c.keyFn == nil { return Default(ev) }`)
+				if (x.Op != token.EQL && x.Op != token.NEQ) || !(IsNilConst(x.X) || IsNilConst(x.Y)) {
+					return nil
+				}
+			case *ssa.FieldAddr, *ssa.UnOp, *ssa.Extract, *ssa.DebugRef, *ssa.ChangeType, *ssa.MakeInterface, *ssa.ChangeInterface, *ssa.If, *ssa.Jump:
+			default:
+				return nil
+			}
+		}
+		if call == nil {
+			continue
+		}
+		t := StaticCallee(&call.Call)
+		if t == nil || t == fn || !InModuleFn(t) || len(t.Blocks) == 0 {
+			return nil
+		}
+		if target != nil && target != t {
+			return nil
+		}
+		target = t
+		for _, a := range call.Call.Args {
+			if !isParam(a) {
+				return nil
+			}
+		}
+	}
+	if target == nil || nRet == 0 || target.Signature.Results().Len() != fn.Signature.Results().Len() {
+		return nil
+	}
+	return target
+}
+
+// DefaultFieldFuncHook: field #i of the struct behind t has a function type and the module
+// stores exactly one function of its own into it (the default a constructor installs); every other
+// store hands on a value that came in from outside (an option's argument). nil otherwise.
+// Installed by core. What an injected function does is outside what the rules decide: they
+// read the default wiring.
+var DefaultFieldFuncHook = func(t types.Type, i int) *ssa.Function { return nil }
 
 func constString(c *ssa.Const) string {
 	if c.Value == nil {
@@ -761,6 +1094,9 @@ func (st *provState) call(c *ssa.CallCommon, v ssa.Value) string {
 		}
 	}
 	if transparent[name] && len(c.Args) == 1 {
+		return st.path(c.Args[0])
+	}
+	if len(c.Args) == 1 && IdentityHelper(StaticCallee(c)) {
 		return st.path(c.Args[0])
 	}
 	if fn := StaticCallee(c); fn != nil && st.depth < 3 {
